@@ -14,17 +14,95 @@ package ast
 //@   prop C11
 //@   requires s != nil && l != nil && forall(k, 0, len(*s), (*s)[k] != nil)
 //@   ensures forall(k, 0, len(*s), (*s)[k] != nil) && implies(result, len(*s) == old(len(*s)) + 1) && implies(!result, len(*s) == old(len(*s)))
+//@   ensures[backing] base(*s) == old(base(*s)) || fresh(base(*s))
 //@   modifies *s, mem(*s)
 //@   loop 1 invariant -1 <= rangeindex && rangeindex <= 0x800000000000 && unchanged(*s) && unchanged(mem(*s))
 
 //@ func (*LoopStack).Pop
 //@   prop C11
 //@   requires s != nil && len(*s) > 0 && forall(k, 0, len(*s), (*s)[k] != nil)
-//@   ensures result != nil && len(*s) == old(len(*s)) - 1 && forall(k, 0, len(*s), (*s)[k] != nil)
+//@   ensures result != nil && len(*s) == old(len(*s)) - 1 && forall(k, 0, len(*s), (*s)[k] != nil) && base(*s) == old(base(*s))
 //@   modifies *s
 
 //@ func (*LoopStack).Top
 //@   prop C11
 //@   requires s != nil && len(*s) > 0 && forall(k, 0, len(*s), (*s)[k] != nil)
 //@   ensures result != nil
+//@   pure
+
+// Node-internal helpers the parser calls. The first group reads sub-nodes that the
+// node's own operator implies (a selector expression has a left-hand side, a
+// comparison has two operands, a while loop has a condition): well-formedness of
+// parser-built nodes, assumed. The second group stores annotations (position, body,
+// jump target, flags) inside a node; no contract reads them back.
+//@ func (*Expr).IsArgsDotFoo
+//@   prop C11
+//@   trusted reads sub-nodes implied by the node's operator (assumed present in parser-built nodes)
+//@   pure
+//@   requires n != nil
+
+//@ func (*Assert).IsChooseCPUArch
+//@   prop C11
+//@   trusted reads sub-nodes implied by the node's operator (assumed present in parser-built nodes)
+//@   pure
+//@   requires n != nil
+
+//@ func (*While).IsWhileTrue
+//@   prop C11
+//@   trusted reads the loop condition (present in parser-built nodes)
+//@   pure
+//@   requires n != nil
+
+//@ func (*Raw).SetFilenameLine
+//@   prop C11
+//@   trusted stores the position inside the node; nothing the contracts read
+//@   pure
+//@   requires n != nil
+
+//@ func (*While).SetBody
+//@   prop C11
+//@   trusted stores the body inside the node; nothing the contracts read
+//@   pure
+//@   requires n != nil
+
+//@ func (*Iterate).SetBody
+//@   prop C11
+//@   trusted stores the body inside the node; nothing the contracts read
+//@   pure
+//@   requires n != nil
+
+//@ func (*Iterate).SetElseIterate
+//@   prop C11
+//@   trusted stores the else branch inside the node; nothing the contracts read
+//@   pure
+//@   requires n != nil
+
+//@ func (*Jump).SetJumpTarget
+//@   prop C11
+//@   trusted stores the target inside the node; nothing the contracts read
+//@   pure
+//@   requires n != nil
+
+//@ func (*Iterate).Assigns
+//@   prop C11
+//@   trusted returns the list the node was built with (the parser builds it from parseList's result: no nil elements)
+//@   pure
+//@   requires n != nil
+//@   ensures forall(k, 0, len(result), result[k] != nil)
+
+//@ func Terminates
+//@   prop C11
+//@   trusted walks a statement list; not verified here (framed as pure)
+//@   pure
+
+//@ func iface ast.Loop.Keyword
+//@   trusted_contract ast.Loop.Keyword: pure field read
+//@   pure
+
+//@ func iface ast.Loop.SetHasBreak
+//@   trusted_contract ast.Loop.SetHasBreak: sets a flag inside the loop node; nothing the contracts read
+//@   pure
+
+//@ func iface ast.Loop.SetHasContinue
+//@   trusted_contract ast.Loop.SetHasContinue: sets a flag inside the loop node; nothing the contracts read
 //@   pure
